@@ -12,6 +12,7 @@ def parseClOp (line : String) : Option ClOp :=
   | ["allow", t] => t.toInt?.map .allow
   | ["shouldclose", t] => t.toInt?.map .shouldClose
   | ["fire", k] => k.toNat?.map .fire
+  | ["view"] => some (.shouldClose 0)      -- a pure read: steps the model like ShouldClose (no state change); see `isView`
   | "cfg" :: rest => let kvs := parseKVs rest; some (.cfg (kvInt kvs "sleep" 0) (kvInt kvs "half" 0) (kvInt kvs "req" 0))
   | _ => none
 
@@ -31,7 +32,13 @@ def suiteCloser (kvs : List (String × String)) (lines : List (String × String)
   match lines.mapM (fun l => parseClOp l.1) with
   | none => lines.map fun _ => "bad-op\t-"
   | some ops =>
-    let m := (clrun (HCloser.init sleep half req) ops).map fun | none => "ok" | some b => fmtBool b
+    let isView := lines.map fun l => l.1 == "view"
+    let rec states (c : HCloser) : List ClOp → List HCloser
+      | [] => []
+      | op :: r => c :: states (clstep c op).1 r
+    let m0 := (clrun (HCloser.init sleep half req) ops).map fun | none => "ok" | some b => fmtBool b
+    let m := ((m0.zip (states (HCloser.init sleep half req) ops)).zip isView).map fun ((o, c), v) =>
+      if v then s!"succ={c.succ} sleep={c.tc.sleep} half={c.tc.allow} req={c.required}" else o
     let reals := lines.map (·.2)
     let rec go (h : List ClOp) (b : ClBook) : List (ClOp × String) → List String
       | [] => []
@@ -62,6 +69,6 @@ def suiteCloser (kvs : List (String × String)) (lines : List (String × String)
           | _ => ("-", b1)
         spec :: go (op :: h) b2 rest
     let specs := go [] { epoch := { sleep := sleep, allow := half }, sleepAtArm := sleep, halfAtArm := half } (ops.zip reals)
-    (m.zip specs).map fun (a, s) => a ++ "\t" ++ s
+    ((m.zip specs).zip isView).map fun ((a, s), v) => a ++ "\t" ++ (if v then "-" else s)
 
 end CM
